@@ -49,3 +49,34 @@ pub(crate) fn before_write(site: &'static str) {
         }
     }
 }
+
+thread_local! {
+    static READER_POINT: RefCell<Option<Box<dyn FnMut(&'static str)>>> = RefCell::new(None);
+}
+
+/// Installs (or removes) a callback which is called inside the reading RPCs of the current
+/// thread (`get_cells`, `get_transactions`, `get_cells_capacity`): once after the snapshot of
+/// the store is taken (`<rpc>:snapshot`) and once for every index entry the query iterates over
+/// (`<rpc>:entry`). The callback may block (a reader paused in the middle of a query while
+/// writers go on).
+pub(crate) fn set_reader_point(callback: Option<Box<dyn FnMut(&'static str)>>) {
+    READER_POINT.with(|cell| *cell.borrow_mut() = callback);
+}
+
+/// Called by the reading RPCs.
+pub(crate) fn reader_point(site: &'static str) {
+    let callback = READER_POINT.with(|cell| cell.borrow_mut().take());
+    if let Some(mut callback) = callback {
+        let result =
+            std::panic::catch_unwind(std::panic::AssertUnwindSafe(|| callback(site)));
+        READER_POINT.with(|cell| {
+            let mut slot = cell.borrow_mut();
+            if slot.is_none() {
+                *slot = Some(callback);
+            }
+        });
+        if let Err(payload) = result {
+            std::panic::resume_unwind(payload);
+        }
+    }
+}
